@@ -7,21 +7,37 @@ from .logmodel import parse_build_log, parse_deps_log, deps_view
 
 
 def small_scenarios(ctx, focus, n, rng, size=(2, 6), feat=None, with_history=0.5, faults=False, jobserver=0.0,
-                    cap=300, salt=0):
+                    cap=300, salt=0, change_kinds=None, build_everything_first=False):
     """-> list of (scenario_json, info) ; the last step of every scenario is an exploring build."""
     out = []
     for k in range(n):
         g = gen.Gen(random.Random(rng.randint(0, 2 ** 60)), size=rng.randint(*size), feat=feat)
         sc = g.scenario("%s-%d-%d-%d" % (focus, ctx.seed, salt, k))
+        if build_everything_first:
+            sc["defaults"] = []          # no argument = every root: nothing stays unbuilt after the first build
         steps, scs = [], []
         cur = copy.deepcopy(sc)
+        base = sc
         if rng.random() < with_history:
             b = g.build_step(cur)
             b["targets"] = []
-            steps.append(b)
-            scs.append(copy.deepcopy(cur))
+            if build_everything_first and any(s_.get("nmp") for s_ in cur["stmts"]):
+                # the first build is done with the generated headers still declared (order-only), as a project starts out;
+                # the declarations are then dropped and the recorded discoveries are all that is left
+                base = copy.deepcopy(sc)
+                for s_ in base["stmts"]:
+                    for h in s_.get("nmp", []):
+                        if h not in s_["oins"]:
+                            s_["oins"].append(h)
+                steps.append(b)
+                scs.append(copy.deepcopy(base))
+                steps.append(simlib.manifest_step(cur))
+                scs.append(copy.deepcopy(cur))
+            else:
+                steps.append(b)
+                scs.append(copy.deepcopy(cur))
             for _ in range(rng.randint(1, 3)):
-                st, desc = g.change(cur, set(), kinds=["edit", "edit_hdr", "touch", "cmd", "rm_out", "edit", "rmlog"])
+                st, desc = g.change(cur, set(), kinds=change_kinds or ["edit", "edit_hdr", "touch", "cmd", "rm_out", "edit", "rmlog"])
                 for s_ in st:
                     steps.append(s_)
                     scs.append(copy.deepcopy(cur))
@@ -37,7 +53,7 @@ def small_scenarios(ctx, focus, n, rng, size=(2, 6), feat=None, with_history=0.5
             ex["jobserver"] = {"tokens": rng.randint(0, 4), "thief": [rng.choice((0, 0, -1, 1, -2, 2)) for _ in range(rng.randint(0, 8))]}
         steps.append(ex)
         scs.append(copy.deepcopy(cur))
-        scn = simlib.scenario_json(sc, steps)
+        scn = simlib.scenario_json(base, steps)
         out.append((scn, {"scs": scs, "explore_step": len(steps) - 1}))
     return out
 
